@@ -145,7 +145,7 @@ def worlds(draw, max_layers=4, min_layers=0, hooks='any', faults=None, nie=0, la
 
 
 @st.composite
-def shaped_world(draw, kinds=('pass', 'pass', 'fail', 'error', 'skip_body'), excs=SIMPLE_EXCS, nie=True):
+def shaped_world(draw, kinds=('pass', 'pass', 'fail', 'error', 'skip_body'), excs=SIMPLE_EXCS, nie=True, focus=None):
     """A directed layer topology: one base LA, two layers LB(LA) and LC(LA) derived from it, one unrelated layer LD
     (optionally with its own base LE); tests in every layer, in that run order.  Faults are drawn per hook from
     {none, exception, NotImplementedError (tearDown only)}.  The shape makes the rare situations frequent that random
@@ -168,7 +168,7 @@ def shaped_world(draw, kinds=('pass', 'pass', 'fail', 'error', 'skip_body'), exc
     kind = draw(st.sampled_from(['class', 'class', 'inst']))
     # half of the worlds follow a scenario (exactly the named hooks are faulty), the others draw every hook independently
     scenario = draw(st.sampled_from(['random', 'random', 'random', 'sweep-exc+nie', 'sweep-nie+exc', 'shared-base-setup',
-                                     'nie-with-base-left', 'derived-setup', 'derived-setup+base-nie']))
+                                     'nie-with-base-left', 'derived-setup', 'derived-setup+base-nie'] + list(focus or ())))
     plan = {'sweep-exc+nie': {'LC': 'td-exc', 'LA': 'td-nie'}, 'sweep-nie+exc': {'LC': 'td-nie', 'LA': 'td-exc'},
             'shared-base-setup': {'LA': 'su-exc'}, 'nie-with-base-left': {'LB': 'td-nie'},
             'derived-setup': {'LB': 'su-exc'},
